@@ -16,7 +16,7 @@ import traceback
 
 HERE = os.path.dirname(os.path.abspath(__file__))
 sys.path.insert(0, HERE)
-REPO_SRC = os.environ.get('VERIF_REPO_SRC', '/repo/src/zope/testrunner')
+REPO_SRC = os.environ.get('VERIF_REPO_SRC') or os.path.join(os.environ.get('VERIF_REPO_ROOT', '/repo'), 'src/zope/testrunner')
 
 import registry                                         # noqa: E402
 from pyvc.verify import Engine                          # noqa: E402
